@@ -509,6 +509,7 @@ def run(tier, seed, replay=None):
 
     evals, dist, samples, nontriv, disagreements = 0, {}, [], set(), 0
     by_sig = {}
+    ms_by = {}
     for i, sc in enumerate(scs):
         go, cl = answers.get(i), crash_of.get(i)
         if go is None and cl is None:
@@ -519,6 +520,8 @@ def run(tier, seed, replay=None):
         if fam not in ("valid",):
             nontriv.add(sc.name)
         model = parse_oracle(olines[i])
+        if go is not None:
+            ms_by[fam + ":" + sc.stage] = ms_by.get(fam + ":" + sc.stage, 0) + go.get("ms", 0)
         fails = property_check(sc, go, cl)
         diffs = compare(sc, go, cl, model)
         if len(samples) < 5 and fam in ("length", "trunc", "type") and evals % 37 == 0:
@@ -539,6 +542,7 @@ def run(tier, seed, replay=None):
                   behaviour_flags=dict(zip(FLAG_NAMES, flags)))
         res.violation(sig, "scenario %s: %s (%d scenarios show it)" % (sc.name, text, len(names)), rp, found_input=found)
 
+    res.notes.append("harness milliseconds by family:stage: %s" % sorted(ms_by.items(), key=lambda kv: -kv[1])[:8])
     res.coverage.update(
         evaluations=evals, distinct_nontrivial=len(nontriv),
         rule="one evaluation = one peer script against a real Client in a supervised test process, the same bytes through the extracted "
